@@ -18,6 +18,7 @@ package signature_proposal_fsm
 
 // a confirmation or a decline of one invited participant
 //@ func (*SignatureProposalFSM).actionProposalResponseByParticipant
+//@   ensures[C19.payload.same] m.payload == old(m.payload)
 //@   safety C18
 //@   requires wfSigP(m)
 //@   ensures[C05.reject,C18.reject] err != nil ==> sigViewsSame(m)
@@ -31,6 +32,7 @@ package signature_proposal_fsm
 
 // the validator run after every accepted reply
 //@ func (*SignatureProposalFSM).actionValidateSignatureProposal
+//@   ensures[C19.payload.same] m.payload == old(m.payload)
 //@   safety C18
 //@   requires wfSigP(m) && sigQ(m.payload) != nil
 //@   ensures[C05.noerr] err == nil
@@ -45,6 +47,7 @@ package signature_proposal_fsm
 
 // the opening proposal: one awaiting record per listed participant, ids 0..n-1 in list order
 //@ func (*SignatureProposalFSM).actionInitSignatureProposal
+//@   ensures[C19.payload.same] m.payload == old(m.payload)
 //@   safety C18
 //@   requires m != nil && m.payload != nil
 //@   ensures[C05.reject,C18.reject] err != nil ==> sigViewsSame(m)
